@@ -5,6 +5,7 @@ import (
 	"context"
 	"encoding/asn1"
 	"fmt"
+	"os"
 	"testing"
 	"time"
 
@@ -413,6 +414,9 @@ func hashMsg(msg [][]byte) []*math.Zr {
 func gen(c *harness.C) []harness.Case {
 	c.Note("rule", "for each configuration a genuine artefact is built on a real DKG output and every single-component perturbation / cross-session substitution of the catalogue is applied (BLS: message, each share, signer-to-share assignment, key, fewer than t; PS request: cm, u, every a[i] b[i] d[i] f[i] x[i] y[i], s, z, swaps, foreign proof; PS proof: every x[i], y, Gamma, Phi, h^e, h'^e, nu, kappa, other key, wrong index, transposition, fewer witnesses, foreign witness); every verdict is taken twice; distinct_nontrivial = distinct (scheme, configuration, object, perturbation)")
 	var cases []harness.Case
+	if os.Getenv("VERIF_FAMILY") == "forge" {
+		return forgeCases(c)
+	}
 	type nt struct{ n, t int }
 	blsC := []nt{{3, 2}, {3, 3}, {4, 3}}
 	psC := [][3]int{{3, 2, 1}, {3, 3, 2}, {3, 2, 3}}
